@@ -187,6 +187,57 @@ pub fn run(args: &Args, rec: &mut Recorder) {
                 }
             }
         }
+        // ---- UTF-16 with an unpaired surrogate is not valid Unicode (and, because of the byte 0xD8 in front
+        // of a non-continuation byte, not valid UTF-8 either): such a file is read as Latin-1
+        if case % 2 == 1 {
+            let enc = *rng.pick(&["utf16le", "utf16le-bom", "utf16be", "utf16be-bom"]);
+            let mut bytes = encode(&text, enc);
+            let unit: [u8; 4] = match (enc.starts_with("utf16le"), rng.coin()) {
+                // lone high surrogate U+D800 / lone low surrogate U+DC00, each followed by 'A'
+                (true, true) => [0x00, 0xD8, 0x41, 0x00],
+                (true, false) => [0x00, 0xDC, 0x41, 0x00],
+                (false, true) => [0xD8, 0x00, 0x00, 0x41],
+                (false, false) => [0xDC, 0x00, 0x00, 0x41],
+            };
+            // inside the trailing white space or a comment at the end, at an even offset
+            let tail_open = encode("\n/* x", enc.trim_end_matches("-bom"));
+            let tail_close = encode(" */\n", enc.trim_end_matches("-bom"));
+            bytes.extend_from_slice(&tail_open);
+            bytes.extend_from_slice(&unit);
+            bytes.extend_from_slice(&tail_close);
+            if std::str::from_utf8(&bytes).is_err() {
+                let expected: String = bytes.iter().map(|b| char::from(*b)).collect();
+                rec.eval();
+                rec.bump("utf16_with_unpaired_surrogate.files");
+                rec.nontrivial(&bytes);
+                let p = scratch.join("c17s.a2l");
+                std::fs::write(&p, &bytes).unwrap();
+                let exp = load_str(&expected, false);
+                crate::util::set_budget(crate::c03::step_budget(bytes.len() * 4));
+                let r = guarded(|| a2lfile::load(&p, None, false));
+                crate::util::reset_budget();
+                let note = format!("{enc} text followed by a comment that holds the unpaired surrogate code unit {:02x}{:02x}", unit[0], unit[1]);
+                match (r, exp) {
+                    (Err((sig, detail)), _) => rec.violation(&sig, &detail, witness_text("C17 unpaired surrogate", &text, &note)),
+                    (Ok(Ok((m, _))), Ok(Ok((me, _)))) => {
+                        if m != me {
+                            rec.violation("file that is not valid Unicode is not read as Latin-1", &crate::c01::model_diff(&me, &m), witness_text("C17 unpaired surrogate", &text, &note));
+                        }
+                    }
+                    (Ok(Ok(_)), Ok(Err(e))) => rec.violation(
+                        "file that is not valid Unicode is not read as Latin-1 (loads although its Latin-1 reading is rejected)",
+                        &format!("{note}; the Latin-1 reading of the bytes is rejected with: {e}"),
+                        witness_text("C17 unpaired surrogate", &text, &note),
+                    ),
+                    (Ok(Err(e)), Ok(Ok(_))) => rec.violation(
+                        "file that is not valid Unicode is rejected although its Latin-1 reading loads",
+                        &format!("{note}: {e}"),
+                        witness_text("C17 unpaired surrogate", &text, &note),
+                    ),
+                    _ => {}
+                }
+            }
+        }
         // ---- totality: corrupted encodings and random bytes
         for _ in 0..4 {
             let enc = *rng.pick(&ENCODINGS);
@@ -251,5 +302,6 @@ pub fn run(args: &Args, rec: &mut Recorder) {
     }
     rec.floor("docs.with_astral_characters", 5);
     rec.floor("latin1.files", 5);
+    rec.floor("utf16_with_unpaired_surrogate.files", 5);
     rec.floor("totality.byte_strings", 50);
 }
